@@ -41,6 +41,7 @@ var c24Funcs = []string{
 	"func f1() {\n\techo 1\n}", "func f2(a, b int) int {\n\treturn a + b\n}", "func (t T) M1() {\n}", "func (t *T) M2(a int) (int, error) {\n\tif a > 0 {\n\t\treturn a, nil\n\t}\n\treturn 0, nil\n}",
 	"func f3() (r int) {\n\tdefer func() { r++ }()\n\treturn\n}", "func f4(cb func(int) int) {\n\tcb(1)\n}", "func f5() { s := \"}\"; _ = s }", "func f6(xs ...int) []int {\n\treturn [x for x <- xs]\n}",
 	"func (T) M3() string {\n\treturn \"{\"\n}", "func /* c */ f8() {\n}", "func (t T) /* c */ M4() /* d */ {\n}", "func f9( /* c */ ) /* d */ {\n}", "func f7() {\n\t/* } */\n\t// {\n}",
+	"func (a T) + (b T) T {\n\treturn a\n}", "func (a *T) * (b *T) *T {\n\treturn a\n}", "func -(a T) T {\n\treturn a\n}", "func (T).add = (\n\t(T).M1\n\t(T).M3\n)", "func mul = (\n\tf1\n\tf2\n)", "func T.stat() {\n}",
 }
 var c24Comments = []string{"// c", "/* b */", "// func x() {", "/* {\n( */", "# sharp"}
 
@@ -137,11 +138,16 @@ func c24Split(src []byte) (stmts []c24stmt, comments []string) {
 						}
 					}
 				}
-				if k+1 < len(rest) && rest[k].tok == token.IDENT && rest[k+1].tok == token.LPAREN {
+				switch {
+				case k+1 < len(rest) && rest[k].tok == token.IDENT && rest[k+1].tok == token.LPAREN:
 					st.isFunc, st.isDecl = true, true // method
+				case k < len(rest) && rest[k].tok == token.PERIOD:
+					st.isFunc, st.isDecl = true, true // func (T).name = (…): overload declaration with receiver
+				case k+1 < len(rest) && rest[k].tok.IsOperator() && rest[k].tok != token.LPAREN && rest[k].tok != token.LBRACE && rest[k].tok != token.LBRACK && rest[k+1].tok == token.LPAREN:
+					st.isFunc, st.isDecl = true, true // func (a T) + (b T) T: operator method
 				}
-			} else if len(rest) > 0 && rest[0].tok == token.IDENT {
-				st.isFunc, st.isDecl = true, true
+			} else if len(rest) > 0 && (rest[0].tok == token.IDENT || rest[0].tok.IsOperator() && rest[0].tok != token.LPAREN) {
+				st.isFunc, st.isDecl = true, true // func name(…), func T.name(…), func name = (…), func -(a T)
 			}
 		}
 		stmts = append(stmts, st)
